@@ -325,6 +325,25 @@ bool frame_complete(const Snapshot &s, const SnapFrame &f, int64_t used, int64_t
 }
 // every frame carries exactly the declared points and channels ("complete frames"), and the shape fits the format's
 // 8/16-bit header and dimension fields (beyond that is C17's subject, not content "within the format's capacity")
+// bytes the parameter section of this content needs (records only; estimate within a few bytes per record)
+static uint64_t param_section_bytes(const Snapshot &s) {
+    uint64_t n = 4;
+    for (const SnapGroup &g : s.groups) {
+        if (g.name.empty() && g.params.empty()) continue;
+        n += 5 + g.name.size() + g.desc.size();
+        for (const SnapParam &p : g.params) {
+            uint64_t el = p.type == 4 ? 4 : p.type == 2 ? 2 : 1, cnt = 1;
+            for (uint64_t d : p.dims) cnt *= d;
+            n += 7 + p.name.size() + p.dims.size() + el * cnt + p.desc.size();
+        }
+    }
+    return n;
+}
+
+// capacity of the format: the section's length is one byte of 512-byte blocks. Beyond it (and close to it: the estimate is
+// not exact) the content is C17's subject (item blocks255), not C01's / C03's / C04's
+static bool within_param_capacity(const Snapshot &s) { return param_section_bytes(s) <= 250 * 512; }
+
 bool frames_complete(const Snapshot &s) {
     int64_t used = 0, aused = 0;
     if (!get_int(s, "POINT", "USED", used) || !get_int(s, "ANALOG", "USED", aused)) return false;
@@ -1518,7 +1537,7 @@ void World::doSave(const Step &st, StepRecord &rec) {
     }
     bool good = !rec.threw && !os.hard_fired && exists;
     if (good && premise_broken) probe("save.premise-broken");
-    if (good && !stop && on(ORC_C03) && !premise_broken && frames_complete(cur)) {
+    if (good && !stop && on(ORC_C03) && !premise_broken && frames_complete(cur) && within_param_capacity(cur)) {
         std::string fc, d = c03_check(img, cur, &fc);
         if (!d.empty()) violate("C03", fc + (api_lineage ? "/created" : "/loaded"), d);
     }
@@ -1529,7 +1548,7 @@ void World::doSave(const Step &st, StepRecord &rec) {
     }
     if (good) {
         Saved sv;
-        sv.path = path; sv.snap = cur; sv.image = img; sv.writer_gen = gen; sv.writer_pristine = pristine; sv.source = loaded_from; sv.premise_broken = premise_broken; sv.refusedTaint = refusedTaint; sv.complete = frames_complete(cur) || (pristine && gen >= 1); /* content that came from a file and was not edited is a valid C04 subject whatever its labels look like */ sv.model = model; sv.api_lineage = api_lineage;
+        sv.path = path; sv.snap = cur; sv.image = img; sv.writer_gen = gen; sv.writer_pristine = pristine; sv.source = loaded_from; sv.premise_broken = premise_broken; sv.refusedTaint = refusedTaint; sv.complete = (frames_complete(cur) && (on(ORC_C17) || within_param_capacity(cur))) || (pristine && gen >= 1); /* content that came from a file and was not edited is a valid C04 subject whatever its labels look like */ sv.model = model; sv.api_lineage = api_lineage;
         // replace an older entry for the same path
         bool rep = false;
         for (auto &s : saved) if (s.path == path) { s = sv; rep = true; break; }
